@@ -138,6 +138,37 @@ def context_programs(h: Harness):
                 h.count("context-grammar-programs")
 
 
+def palette_programs(h: Harness):
+    """programs whose leaves are objects the user supplied (VarRange over instances of a terminal class): the same object can
+    occur several times in one program, and the per-node type index lists one entry per OCCURRENCE, as a traversal does (and
+    as the node counts do)"""
+    import ctxgrammar
+    from geneticengine.random.sources import NativeRandomSource
+    from geneticengine.representations.tree.initializations import FullDecider, MaxDepthDecider
+    for expansion in (False, True):
+        for seed in range(h.n(10, 60)):
+            g, classes = ctxgrammar.palette_grammar(expansion)
+            r = NativeRandomSource(seed)
+            rep = TreeBasedRepresentation(g, (FullDecider if seed % 2 else MaxDepthDecider)(r, g, g.get_min_tree_depth() + 2))
+            try:
+                progs = [rep.create_genotype(r)]
+                progs.append(rep.mutate(r, progs[0]))
+            except Exception as e:  # noqa: BLE001
+                h.count("palette-grammar-error:" + type(e).__name__)
+                continue
+            for p in progs:
+                want = ctxgrammar.palette_counts(p, classes)
+                have = {k: len(v) for k, v in p.gengy_types_this_way.items()}
+                h.count("palette-programs")
+                h.seen(f"palette:{expansion}:{seed}:{repr(p)[:60]}", nontrivial=want.get(ctxgrammar.Colour, 0) >= 3)
+                bad = [(k.__name__, have.get(k, 0), n) for k, n in want.items() if have.get(k, 0) != n]
+                if bad:
+                    h.fail("create_genotype[palette-grammar]", "labels-differ-from-structure",
+                           f"{repr(p)[:160]}: the type index of the root lists {bad[0][1]} entries for {bad[0][0]}, a traversal finds {bad[0][2]} occurrences "
+                           f"(expansion_depthing={expansion})", [expansion, seed])
+                    break
+
+
 def corpus():
     """fixed witnesses: a layered abstract hierarchy (Expr > Atom > Const > Lit) whose upper class types fields, plain and
     size-refined lists, tuples and unions of it -- in both depth modes"""
@@ -157,9 +188,9 @@ def corpus():
     return out
 
 
-def exercise(h: Harness, spec, rng):
+def exercise(h: Harness, spec, rng, b=None):
     if True:
-        b = gram.build(spec)
+        b = b if b is not None else gram.build(spec)
         try:
             g = b.extract()
         except Exception:  # noqa: BLE001
@@ -200,10 +231,19 @@ def exercise(h: Harness, spec, rng):
 def run(h: Harness):
     rng = h.rng
     context_programs(h)
+    palette_programs(h)
     for spec in corpus():
         for _ in range(h.n(4, 20)):
             exercise(h, spec, rng)
         h.count("corpus-grammars")
+    # real dataclasses with attributes that are not constructor parameters (before and after the parameters): not children
+    import dcgrammar
+    for considered, start in dcgrammar.GRAMMARS:
+        for expansion in (False, True):
+            spec, b = gram.reflect(considered, start, expansion)
+            for _ in range(h.n(3, 12)):
+                exercise(h, spec, rng, b=b)
+            h.count("dataclass-grammars-with-non-constructor-attributes")
     for gi in range(h.n(150, 3000)):
         # a third of the grammars count depth by grammar expansion (extract_grammar(..., expansion_depthing=True))
         expansion = rng.random() < 0.33
